@@ -134,7 +134,7 @@ package hessian
 //@ func (*Encoder).writeObject
 //@   requires e.nameMap != nil && e.refMap != nil
 //@   requires mapsize(e.refMap) + @clashes == @opens
-//@   assigns @out, @W, @E, @nwrites, @tr, @opens, @clashes, @lastwriter, e.clsDefList, mapof(e.refMap), mapof(e.nameMap)
+//@   assigns @out, @W, @E, @nwrites, @tr, @opens, @clashes, @lastwriter, @startcls, @startrefs, e.clsDefList, mapof(e.refMap), mapof(e.nameMap)
 //@   sets @lastwriter = 3
 //@   let gvv    = R.unpackPtrValue(R.valueOf(data))
 //@   let gtyp   = R.typeOf(gvv)
@@ -154,7 +154,7 @@ package hessian
 //@ func (*Encoder).writeList
 //@   requires e.nameMap != nil && e.refMap != nil
 //@   requires mapsize(e.refMap) + @clashes == @opens
-//@   assigns @out, @W, @E, @nwrites, @tr, @opens, @clashes, @lastwriter, e.clsDefList, mapof(e.refMap), mapof(e.nameMap)
+//@   assigns @out, @W, @E, @nwrites, @tr, @opens, @clashes, @lastwriter, @startcls, @startrefs, e.clsDefList, mapof(e.refMap), mapof(e.nameMap)
 //@   sets @lastwriter = 1
 //@   let gvv    = R.unpackPtrValue(R.valueOf(data))
 //@   let tn     = R.typeName(R.unpackPtrType(R.typeOf(gvv)))
@@ -174,7 +174,7 @@ package hessian
 //@ func (*Encoder).writeMap
 //@   requires e.nameMap != nil && e.refMap != nil
 //@   requires mapsize(e.refMap) + @clashes == @opens
-//@   assigns @out, @W, @E, @nwrites, @tr, @opens, @clashes, @lastwriter, e.clsDefList, mapof(e.refMap), mapof(e.nameMap)
+//@   assigns @out, @W, @E, @nwrites, @tr, @opens, @clashes, @lastwriter, @startcls, @startrefs, e.clsDefList, mapof(e.refMap), mapof(e.nameMap)
 //@   sets @lastwriter = 2
 //@   let gvv    = R.unpackPtrValue(R.valueOf(data))
 //@   let gnull  = (R.kind(gvv) == K.Ptr && !R.isValid(R.elem(gvv))) || R.mapLen(gvv) == 0
